@@ -433,7 +433,11 @@ class Node:
             return
         peer = self.peers[conn.host_identity]
         peer.disconnect_reason = None
-        if not peer.connection:
+        if (not peer.connection or
+                (peer.connection is not conn and
+                 peer.connection.state not in PEER_READY_STATES)):
+            # a connection that has completed its capabilities exchange takes
+            # precedence over one that is still being established
             peer.connection = conn
         if conn.ident in self._half_ready_connections:
             del self._half_ready_connections[conn.ident]
@@ -1433,13 +1437,24 @@ class Node:
         if conn.ident in self.peer_sockets:
             del self.peer_sockets[conn.ident]
         peer = self._find_connection_peer(conn)
-        if peer:
+        if peer and peer.connection in (conn, None):
             # unset so that a new connection may be made later
             peer.connection = None
             peer.last_disconnect = int(time.time())
             # only set if not yet set
             if peer.disconnect_reason is None:
                 peer.disconnect_reason = disconnect_reason
+            # the peer may still have another connection, e.g. when both ends
+            # have connected to each other; prefer one that is ready
+            other_conns = [
+                c for c in self.connections.values()
+                if self._find_connection_peer(c) is peer and
+                (c.is_sender or c.host_identity)]
+            if other_conns:
+                peer.connection = next(
+                    (c for c in other_conns if c.state in PEER_READY_STATES),
+                    other_conns[0])
+                peer.disconnect_reason = None
 
         # Remove pending answer tracking; we cannot know if the peer will
         # persist its hop-by-hop IDs over reconnect.
